@@ -607,3 +607,7 @@ PROPS["C12"] = {
 
 if "C12" in PROPS:
     PROPS["C12"]["thorough"]["fuzz"] = {"targets": "^FuzzDecode_", "fuzztime": "30s"}
+
+# thorough tiers bounded so that the whole thorough sweep completes within a session
+PROPS["C08"]["thorough"].update({"scale": 4, "timeout_s": 7200})
+PROPS["C04"]["thorough"].update({"scale": 5})
